@@ -9,9 +9,16 @@ ORACLE = "search: Spec-level oracles (extracted from coq/theories/Spec) evaluate
 OUTSIDE = ("outside the model: usize wrap-around / indices near 2^32..2^64 (model uses unbounded nat), native stack "
            "exhaustion, allocation failure, timing")
 
-RED_TB = [KERNEL, NOAX, TIE_B + "; modelled: src/reduction.rs (apply, _apply, update_free_variables, eval, "
-          "is_reducible, beta_{cbn,nor,cbv,app,hap,hsp,hno}, reduce, beta)", ORACLE, OUTSIDE]
-RED_ASM = ["the Gallina mirror of reduction.rs is faithful (validated by differential testing only)",
+TIE_R = ("tie (reducer): coq/theories/Gen/ReductionSrc.v - update_free_variables, _apply, apply, eval, is_reducible, the "
+         "seven beta_* traversals and the dispatch of reduce - is REGENERATED from /repo/src/reduction.rs on every run by "
+         "lib/trans_reduction.py (a translator for exactly the imperative idiom of that file: &mut self becomes input/"
+         "output, &mut count is threaded, recursion gets fuel; anything outside the idiom fails the translation, which is "
+         "reported as a broken tie and the last good model coq/baseline/ReductionSrc.v is used for the search); the proofs "
+         "are re-checked against the regenerated model, and the regenerated model is ALSO run against the compiled crate "
+         "by the correspondence run (harness/impl_run -> ocaml/driver on the extracted model; ExtrOcamlBasic only)")
+RED_TB = [KERNEL, NOAX, TIE_R, ORACLE, OUTSIDE]
+RED_ASM = ["the translator lib/trans_reduction.py renders the Rust idiom of reduction.rs faithfully (mem::replace/unwrap "
+           "plumbing, usize arithmetic as nat; validated on every run by differential testing of its output)",
            "fuel: theorems are conditional on the model returning Some (never on a particular fuel)",
            OUTSIDE]
 
@@ -28,8 +35,9 @@ PROPS = {
         rule=("all pairs (receiver, argument) from the universes of terms up to 4x3 (quick) / 5x4 (thorough) constructors "
               "over indices 0..3, plus random receivers under up to 6 binders with free indices crossing them; "
               "non-trivial = substitution changes the body, or the error path on a non-abstraction"),
-        trusted_base=[KERNEL, NOAX, TIE_B + "; modelled: Term::apply, _apply, update_free_variables", ORACLE, OUTSIDE],
-        assumptions=["the Gallina mirror of apply is faithful (validated by differential testing only)", OUTSIDE],
+        trusted_base=[KERNEL, NOAX, TIE_R, ORACLE, OUTSIDE],
+        assumptions=["the translator lib/trans_reduction.py renders apply/_apply/update_free_variables faithfully "
+                     "(validated on every run by differential testing of its output)", OUTSIDE],
         explanation=("Theorems: apply_m (Abs b) a = subst 1 a b = inst (beta_sub a) b for all b, a (two independent "
                      "definitions of capture-avoiding substitution); non-abstractions yield NotAbs with the receiver "
                      "unchanged; free variables of the result come from the inputs; UD inert.")),
@@ -84,7 +92,7 @@ PROPS["C08"] = red(["reduce", "apply", "history", "meta-reduce", "meta-apply"], 
     "Theorems: beta steps never enlarge the free-variable set nor create UD; hence reduce, apply and every "
     "history of calls preserve closedness and UD-freeness. Oracle: fv / has_ud on implementation results.")
 
-PROPS["C06"] = red(["history", "normalise", "reduce"], r"oracle:C06:",
+PROPS["C06"] = red(["history", "normalise", "reduce", "meta-reduce"], r"oracle:C06:",
     "Theorems: Church-Rosser for the calculus (parallel reduction, complete development); every history of reduce "
     "calls with arbitrary orders and limits is a beta reduction; normal forms reached by any two histories / any two "
     "normalising orders coincide; the result of any call still normalises (under NOR) to the same normal form. "
@@ -162,7 +170,7 @@ DATA_TB = [KERNEL, NOAX, TIE_A, TIE_B + "; modelled: the reducer (as C01) and th
            "expected results are computed natively (usize arithmetic, Vec operations) by the harness and encoded with "
            "the Spec encoders of coq/theories/Spec/Encodings.v", OUTSIDE]
 DATA_ASM = ["bounded grids are theorems only for the bounds written in their statements",
-            "the Gallina mirror of the reducer is faithful (differential testing only)", OUTSIDE]
+            "the translator of reduction.rs (lib/trans_reduction.py) is faithful (its output is run against the crate on every run)", OUTSIDE]
 
 PROPS["C12"] = dict(
     suites=["ops:convert"], oracle_re=r"oracle:C12:", gen=True,
